@@ -155,62 +155,57 @@ Proof.
   rewrite andb_true_iff, beq_eq, IH. split; [intros [-> ->]; reflexivity|intros [= -> ->]; tauto].
 Qed.
 
-Lemma pkey_eqb_refl k : pkey_eqb k k = true.
-Proof. destruct k as [[r c] l]. cbn. now rewrite !Bool.eqb_reflx, lbeq_refl. Qed.
+Lemma lprefix_refl l : lprefix l l = true.
+Proof. induction l as [|x l IH]; cbn; [reflexivity|]. now rewrite beq_refl, IH. Qed.
 
-Lemma pkey_eqb_eq a b : pkey_eqb a b = true <-> a = b.
+Lemma lprefix_spec a b : lprefix a b = true <-> exists r, b = a ++ r.
 Proof.
-  destruct a as [[r1 c1] l1], b as [[r2 c2] l2]. cbn. rewrite !andb_true_iff, !Bool.eqb_true_iff, lbeq_eq.
-  split; [intros [[-> ->] ->]; reflexivity|intros [= -> -> ->]; tauto].
+  revert b. induction a as [|x a IH]; intros b; cbn.
+  - split; [intros _; now exists b|reflexivity].
+  - destruct b as [|y b]; [split; [discriminate|intros [r Hr]; discriminate]|].
+    rewrite andb_true_iff, beq_eq, IH. split.
+    + intros [-> [r ->]]. now exists r.
+    + intros [r [= -> ->]]. split; [reflexivity|now exists r].
 Qed.
 
-(* a declared file is never dropped by the new conjunct: the filter on it is the old filter *)
-Lemma declared_file_still_relevant files exts f :
-  In f files -> watch_filter2 files exts f = watch_filter exts f.
+(* a declared path — the watched file itself under any spelling with the same components, a declared directory, anything below
+   a declared directory — is never dropped by the new conjunct: the filter on it is the old filter *)
+Lemma declared_path_still_relevant declared files exts w p :
+  In w declared -> lprefix (pseq w) (pseq p) = true -> watch_filter2 declared files exts p = watch_filter exts p.
 Proof.
-  intros Hin. unfold watch_filter2, other_in_file_dir.
-  assert (H : existsb (fun f0 => pkey_eqb (pkey f0) (pkey f)) files = true).
-  { apply existsb_exists. exists f. split; [exact Hin|apply pkey_eqb_refl]. }
-  now rewrite H.
+  intros Hin Hpre. unfold watch_filter2, other_in_file_dir.
+  assert (H : existsb (fun w0 => lprefix (pseq w0) (pseq p)) declared = true).
+  { apply existsb_exists. exists w. split; assumption. }
+  rewrite H. cbn. now rewrite andb_false_r.
 Qed.
 
-(* ... nor is any other spelling of it (same components) *)
-Lemma declared_file_any_spelling files exts f p :
-  In f files -> pkey p = pkey f -> watch_filter2 files exts p = watch_filter exts p.
-Proof.
-  intros Hin Hk. unfold watch_filter2, other_in_file_dir.
-  assert (H : existsb (fun f0 => pkey_eqb (pkey f0) (pkey p)) files = true).
-  { apply existsb_exists. exists f. split; [exact Hin|]. rewrite Hk. apply pkey_eqb_refl. }
-  now rewrite H.
-Qed.
-
-(* a different file in the directory of a declared file never triggers: that directory is watched for the declared file only *)
-Lemma neighbour_of_declared_file_ignored files exts f p d :
-  In f files -> parent_key (pkey f) = Some d -> parent_key (pkey p) = Some d ->
-  (forall f', In f' files -> pkey f' <> pkey p) ->
-  watch_filter2 files exts p = false.
+(* a path in the directory of a watched file that is not at or below any declared path never triggers: that directory is watched
+   for the declared paths only *)
+Lemma neighbour_of_declared_file_ignored declared files exts f p d :
+  In f files -> parent_seq (pseq f) = Some d -> parent_seq (pseq p) = Some d ->
+  (forall w, In w declared -> lprefix (pseq w) (pseq p) = false) ->
+  watch_filter2 declared files exts p = false.
 Proof.
   intros Hin Hpf Hpp Hne. unfold watch_filter2, other_in_file_dir.
-  assert (H1 : existsb (fun f0 => pkey_eqb (pkey f0) (pkey p)) files = false).
-  { apply not_true_iff_false. intros H. apply existsb_exists in H as [f' [Hf' He]].
-    apply pkey_eqb_eq in He. exact (Hne f' Hf' He). }
-  assert (H2 : existsb (fun f0 => match parent_key (pkey f0), parent_key (pkey p) with
-                                  | Some d0, Some q => pkey_eqb q d0 | _, _ => false end) files = true).
-  { apply existsb_exists. exists f. split; [exact Hin|]. rewrite Hpf, Hpp. apply pkey_eqb_refl. }
+  assert (H1 : existsb (fun w0 => lprefix (pseq w0) (pseq p)) declared = false).
+  { apply not_true_iff_false. intros H. apply existsb_exists in H as [w [Hw He]]. rewrite (Hne w Hw) in He. discriminate. }
+  assert (H2 : existsb (fun f0 => match parent_seq (pseq f0), parent_seq (pseq p) with
+                                  | Some d0, Some q => lbeq q d0 | _, _ => false end) files = true).
+  { apply existsb_exists. exists f. split; [exact Hin|]. rewrite Hpf, Hpp. apply lbeq_refl. }
   now rewrite H1, H2.
 Qed.
 
-(* frame: a path whose directory is not the directory of any declared file is filtered exactly as before the repair
-   (in particular with no declared file at all) *)
-Lemma no_declared_file_no_change files exts p :
-  (forall f d q, In f files -> parent_key (pkey f) = Some d -> parent_key (pkey p) = Some q -> q <> d) ->
-  watch_filter2 files exts p = watch_filter exts p.
+(* frame: a path whose directory is not the directory of any watched file is filtered exactly as before the repair
+   (in particular when no input is declared as a file) *)
+Lemma no_declared_file_no_change declared files exts p :
+  (forall f d q, In f files -> parent_seq (pseq f) = Some d -> parent_seq (pseq p) = Some q -> q <> d) ->
+  watch_filter2 declared files exts p = watch_filter exts p.
 Proof.
   intros Hno. unfold watch_filter2, other_in_file_dir.
-  assert (H2 : existsb (fun f0 => match parent_key (pkey f0), parent_key (pkey p) with
-                                  | Some d0, Some q => pkey_eqb q d0 | _, _ => false end) files = false).
+  assert (H2 : existsb (fun f0 => match parent_seq (pseq f0), parent_seq (pseq p) with
+                                  | Some d0, Some q => lbeq q d0 | _, _ => false end) files = false).
   { apply not_true_iff_false. intros H. apply existsb_exists in H as [f [Hf He]].
-    destruct (parent_key (pkey f)) as [d|] eqn:Ef; [|discriminate]. destruct (parent_key (pkey p)) as [q|] eqn:Ep; [|discriminate].
-    apply pkey_eqb_eq in He. exact (Hno f d q Hf Ef eq_refl He). }
-  rewrite H2, andb_false_r. reflexivity.
+    destruct (parent_seq (pseq f)) as [d|] eqn:Ef; [|discriminate]. destruct (parent_seq (pseq p)) as [q|] eqn:Ep; [|discriminate].
+    apply lbeq_eq in He. exact (Hno f d q Hf Ef eq_refl He). }
+  now rewrite H2.
 Qed.
